@@ -22,12 +22,12 @@ LEAN_LEMMAS = ['running_max_ge', 'running_max_attained']        # /verif/lean/Gh
 FUNCTIONS = ['dassh.assembly:Assembly._update_peak_coolant_temps', 'dassh.assembly:Assembly._update_peak_duct_temps',
              'dassh.assembly:Assembly._update_peak_pin_temps', 'dassh.assembly:Assembly.pin_temp_array',
              'dassh.assembly:Assembly.calculate (order of region update, pressure drop, peak updates)',
-             'dassh.table:DuctTempTable._get_avg_duct_face_temp', 'dassh.table:CoolantTempTable.make']
+             'dassh.table:DuctTempTable._get_avg_duct_face_temp', 'dassh.table:CoolantTempTable.make', 'dassh.table:PeakPinTempTable.make', 'dassh.table:DuctTempTable.make']
 ASSUMPTIONS = ['temperatures are > 0 K so that the initial peak 0.0 is exceeded at the first plane',
                'the whole-sweep statement is the induction over steps of the proved fold step (maximum of a sequence = '
                'fold of binary max; first height of attainment because the update is strict)']
-NOT_DECIDED = ['text tables (PeakPinTempTable; DuctTempTable beyond the bounded run-time contract): '
-               'formatting and unit conversion of the printed numbers; CoolantTempTable: the rounding to two decimals '
+NOT_DECIDED = ['text tables (DuctTempTable beyond the bounded run-time contract): '
+               'formatting and unit conversion of the printed numbers; CoolantTempTable / PeakPinTempTable: the rounding of cells '
                '(its cells are under contract as the values handed to the formatter)']
 
 
@@ -270,6 +270,64 @@ def duct_face_avg(S, cfg):
 duct_face_avg.cname = 'DuctTempTable._get_avg_duct_face_temp'
 
 
+def duct_table(S, cfg):
+    """the duct summary table through the real DuctTempTable.make: one row per duct of the LAST region; the faces are the
+    final-plane face averages of that duct and the peak / height printed next to them are those of the same duct - the
+    ducts of the last region are the outermost of the ducts the assembly keeps peaks for"""
+    from dassh import table, utils
+    n_reg, n_peak = cfg['n_region_ducts'], cfg['n_peak_ducts']
+
+    class _R:
+        pass
+
+    class _A:
+        pass
+    r = _R()
+    r.units = {'mass_flow_rate': 'kg/s', 'length': cfg.get('length', 'm'), 'temperature': cfg.get('temperature', 'kelvin')}
+    a = _A()
+    a.id, a.name, a.loc = 7, 'asm', (1, 2)
+    T = S.vec('Tmw', (n_reg, 6), 'pos', 600.0, 1200.0)
+    a.region = [_Region({'duct_mw': S.vec('Tmw_first', (n_peak, 6), 'pos', 600.0, 1200.0)}), _Region({'duct_mw': T})]
+    a._peak = {'duct': [(S.pos(f'Tpeak[{d}]', 700.0, 1300.0), S.pos(f'zpeak[{d}]', 0.1, 3.0)) for d in range(n_peak)]}
+    r.assemblies = [a]
+    t = table.DuctTempTable()
+    t.make(r)
+    tconv = (lambda v: v) if r.units['temperature'] in utils._DEFAULT_UNITS['temperature'] else \
+        utils.get_temperature_conversion('K', r.units['temperature'])
+    lconv = (lambda v: v) if r.units['length'] in utils._DEFAULT_UNITS['length'] else \
+        utils.get_length_conversion('m', r.units['length'])
+    rows = [ln for ln in t._table.splitlines() if ln.strip() and ln.split()[0].isdigit()]
+    S.holds('ducttable.one_row_per_duct_of_the_last_region', len(rows) == n_reg)
+    for d, ln in enumerate(rows[:n_reg]):
+        cells = ln.replace('( ', '(').replace(', ', ',').split()
+        S.holds(f'ducttable.row_shape[{d}]', len(cells) == 11 and cells[2] == str(d + 1))
+        if len(cells) != 11:
+            continue
+        vals = [core.parse_token(c) if S.mode == 'sym' else float(c) for c in cells[3:]]
+        if any(v is None for v in vals):
+            S.holds(f'ducttable.cells_are_numbers[{d}]', False)
+            continue
+        pk = a._peak['duct'][n_peak - n_reg + d]
+        if S.mode == 'sym':
+            for f in range(6):
+                S.eq(f'ducttable.face_average_of_this_duct[{d},{f}]', vals[f], tconv((T[d, f] + T[d, (f - 1) % 6]) / 2))
+            S.eq(f'ducttable.peak_of_this_duct[{d}]', vals[6], tconv(pk[0]))
+            S.eq(f'ducttable.peak_height_of_this_duct[{d}]', vals[7], lconv(pk[1]))
+        else:
+            for f in range(6):
+                S.le(f'ducttable.face_average_of_this_duct[{d},{f}]', abs(vals[f] - tconv((T[d, f] + T[d, (f - 1) % 6]) / 2)), 0.00501)
+            S.le(f'ducttable.peak_of_this_duct[{d}]', abs(vals[6] - tconv(pk[0])), 0.00501)
+            S.le(f'ducttable.peak_height_of_this_duct[{d}]', abs(vals[7] - lconv(pk[1])), 0.00501)
+    if S.mode == 'sym' and rows and len(rows[0].split()) >= 10 and n_peak > n_reg:
+        v = core.parse_token(rows[0].replace('( ', '(').replace(', ', ',').split()[9])
+        if v is not None:
+            S.eq('canary.ducttable_peak_of_innermost_duct', v, tconv(a._peak['duct'][0][0]), canary=True)
+
+
+duct_table.cname = 'DuctTempTable.make'
+duct_table.run_kw = dict(pool_size=8, check_div=False)
+
+
 def coolant_table(S, cfg):
     """the coolant summary table through the real CoolantTempTable.make on a reactor whose assemblies answer every
     query with a distinct atom: the printed cells are read back (numbers formatted by the code carry a token of their
@@ -350,8 +408,127 @@ coolant_table.cname = 'CoolantTempTable.make'
 coolant_table.run_kw = dict(pool_size=8, check_div=False)
 
 
+def pin_table(S, cfg):
+    """the peak pin temperature table through the real PeakPinTempTable.make: for the requested component / location
+    the row printed for an assembly is the pin, height and radial profile stored WITH THAT peak (not with another
+    location's peak), the linear power of that pin at that height, and the hot-spot temperatures of the assembly with
+    that id, each in the requested unit"""
+    from dassh import table, utils
+    comp, loc = cfg['component'], cfg['region']
+    n_asm = 2
+    keys = ['clad_od', 'clad_mw', 'clad_id', 'fuel_od', 'fuel_cl']
+
+    class _R:
+        pass
+
+    class _A:
+        pass
+
+    class _P:
+        def __init__(self, tag, n_pin):
+            self.asked = []
+            self.pins = S.vec(f'plin[{tag}]', n_pin, 'pos', 1e3, 4e4)
+
+        def get_power(self, z):
+            self.asked.append(z)
+            return {'pins': self.pins, 'duct': None, 'cool': None}
+    r = _R()
+    r.units = {'mass_flow_rate': 'kg/s', 'length': cfg.get('length', 'm'), 'temperature': cfg.get('temperature', 'kelvin')}
+    r._options = {'hotspot': {}}
+    r.assemblies = []
+    for i in range(n_asm):
+        a = _A()
+        a.id, a.name = 10 + i, f'asm{i}'           # ids differ from the position in the list
+        a.power = _P(i, 3)
+        a._peak = {'pin': {}}
+        for kk, key in enumerate(keys):
+            row = np.empty(9, dtype=object)
+            row[0] = 0.0
+            row[1] = S.pos(f'z[{i},{key}]', 0.1, 3.0)
+            row[2] = (i + kk) % 3                   # the pin differs from location to location
+            for c in range(3, 9):
+                row[c] = S.pos(f'T[{i},{key},{c}]', 650.0, 1200.0)
+            a._peak['pin'][key] = (row[3 + min(kk + 1, 5)], row[1], row)
+        r.assemblies.append(a)
+    want_key = f'{comp}_{loc}'
+    n_hot = {'clad_od': 3, 'clad_mw': 4, 'clad_id': 5, 'fuel_od': 6, 'fuel_cl': 7}[want_key]
+    hot = {want_key: [S.vec(f'Thot[{j}]', n_hot, 'pos', 700.0, 1300.0) for j in range(n_asm)]}
+    # listed in the reverse order of the assemblies: the row of assembly id is found by id
+    hot_ids = {want_key: [r.assemblies[n_asm - 1 - j].id for j in range(n_asm)]}
+    t = table.PeakPinTempTable(comp, loc)
+    t.make(r, (hot, hot_ids) if cfg.get('hotspot') else None)
+    tconv = (lambda v: v) if r.units['temperature'] in utils._DEFAULT_UNITS['temperature'] else \
+        utils.get_temperature_conversion('K', r.units['temperature'])
+    lconv = (lambda v: v) if r.units['length'] in utils._DEFAULT_UNITS['length'] else \
+        utils.get_length_conversion('m', r.units['length'])
+    rows = [ln for ln in t._table.splitlines() if ln.strip() and ln.split()[0].isdigit()]
+    S.holds('pintable.one_row_per_assembly', len(rows) == n_asm)
+
+    def value(c):
+        if S.mode == 'sym':
+            return core.parse_token(c)
+        try:
+            return float(c)
+        except ValueError:
+            return None
+    for i, ln in enumerate(rows[:n_asm]):
+        a = r.assemblies[i]
+        cells = ln.replace('|', ' ').split()
+        src = a._peak['pin'][want_key][2]
+        S.holds(f'pintable.pin_of_this_peak[{i}]', len(cells) > 3 and cells[1] == a.name and cells[2] == str(int(src[2])))
+        vals = [value(c) for c in cells[3:]]
+        n_nom = 2 + 6
+        S.holds(f'pintable.row_shape[{i}]', len(vals) >= n_nom and all(v is not None for v in vals[:n_nom]))
+        if len(vals) < n_nom or any(v is None for v in vals[:n_nom]):
+            continue
+        S.holds(f'pintable.power_asked_at_the_peak_height[{i}]', len(a.power.asked) == 1)
+        if S.mode == 'sym':
+            S.eq(f'pintable.height_of_this_peak[{i}]', vals[0], lconv(src[1]))
+            S.eq(f'pintable.power_of_this_pin[{i}]', vals[1], a.power.pins[int(src[2])] / lconv(1))
+            if len(a.power.asked) == 1:
+                # asked within the rounding the code applies (10 decimals)
+                S.le(f'pintable.power_height.hi[{i}]', a.power.asked[0] - src[1], 0.5e-10)
+                S.le(f'pintable.power_height.lo[{i}]', src[1] - a.power.asked[0], 0.5e-10)
+            for c in range(6):
+                S.eq(f'pintable.profile_of_this_peak[{i},{c}]', vals[2 + c], tconv(src[3 + c]))
+        else:
+            S.le(f'pintable.height_of_this_peak[{i}]', abs(vals[0] - lconv(src[1])), 0.0501)
+            S.le(f'pintable.power_of_this_pin[{i}]', abs(vals[1] - a.power.pins[int(src[2])] / lconv(1)), 0.0501)
+            if len(a.power.asked) == 1:
+                S.le(f'pintable.power_height.hi[{i}]', a.power.asked[0] - src[1], 0.5e-10)
+                S.le(f'pintable.power_height.lo[{i}]', src[1] - a.power.asked[0], 0.5e-10)
+            for c in range(6):
+                S.le(f'pintable.profile_of_this_peak[{i},{c}]', abs(vals[2 + c] - tconv(src[3 + c])), 0.0501)
+        if cfg.get('hotspot'):
+            j = hot_ids[want_key].index(a.id)
+            hv = vals[n_nom:]
+            # the table has room for the locations from the coolant out to the requested one
+            S.holds(f'pintable.hotspot_columns[{i}]', len(hv) == n_hot - 1 + 0 or len(hv) == n_hot or len(hv) == t.n_col - 9)
+            for c in range(min(len(hv), n_hot)):
+                if hv[c] is None:
+                    S.holds(f'pintable.hotspot_cell_is_a_number[{i},{c}]', False)
+                elif S.mode == 'sym':
+                    S.eq(f'pintable.hotspot_of_this_assembly[{i},{c}]', hv[c], tconv(hot[want_key][j][c]))
+                else:
+                    S.le(f'pintable.hotspot_of_this_assembly[{i},{c}]', abs(hv[c] - tconv(hot[want_key][j][c])), 0.0501)
+    if S.mode == 'sym' and rows:
+        c0 = rows[0].replace('|', ' ').split()
+        other = r.assemblies[0]._peak['pin'][keys[(keys.index(want_key) + 1) % 5]][2]
+        if len(c0) > 5 and core.parse_token(c0[5]) is not None:
+            S.eq('canary.pintable_profile_of_another_peak', core.parse_token(c0[5]), tconv(other[3]), canary=True)
+
+
+pin_table.cname = 'PeakPinTempTable.make'
+pin_table.run_kw = dict(pool_size=8, check_div=False)
+
+
 def configs(tier):
-    out = [(coolant_table, dict()), (coolant_table, dict(temperature='celsius', length='cm')),
+    out = [(pin_table, dict(component='clad', region='mw')), (pin_table, dict(component='fuel', region='cl', hotspot=True)),
+           (pin_table, dict(component='clad', region='od', hotspot=True, temperature='celsius', length='cm')),
+           (pin_table, dict(component='clad', region='id')), (pin_table, dict(component='fuel', region='od', hotspot=True)),
+           (duct_table, dict(n_region_ducts=1, n_peak_ducts=2)), (duct_table, dict(n_region_ducts=2, n_peak_ducts=2)),
+           (duct_table, dict(n_region_ducts=2, n_peak_ducts=3, temperature='fahrenheit', length='in')),
+           (coolant_table, dict()), (coolant_table, dict(temperature='celsius', length='cm')),
            (coolant, dict(n=3)),
            (duct, dict(n_region_ducts=1, n_peak_ducts=1, cells=2)),
            (duct, dict(n_region_ducts=1, n_peak_ducts=2, cells=2)),
